@@ -49,6 +49,9 @@ func descKind(d D) string {
 		}
 		return "iface"
 	case "marshaler":
+		if ptrRecv[dstr(d, "ty")] {
+			return "marshaler(pointer-receiver):" + dstr(d, "ty")
+		}
 		return "marshaler:" + dstr(d, "ty")
 	case "struct":
 		if ty := dstr(d, "ty"); ty != "" {
@@ -84,6 +87,10 @@ func locate(d D, lc bool, tf string, exp *SV, got data.Value, indir int) string 
 		k := descKind(d)
 		if strings.HasPrefix(k, "marshaler:") && indir >= 2 {
 			return "marshaler-ignored-behind-indirection"
+		}
+		if strings.HasPrefix(k, "marshaler(pointer-receiver):") && indir >= 1 {
+			// reached through a pointer, so the pointer implements Marshaler
+			return "pointer-receiver-marshaler-ignored:through-pointer"
 		}
 		if k == "time" && tf == "empty" {
 			return "time:tf=empty:not-iso8601"
@@ -141,6 +148,15 @@ func locate(d D, lc bool, tf string, exp *SV, got data.Value, indir int) string 
 			return leaf()
 		}
 		fs, _ := fieldsOf(d["v"])
+		for _, f := range fs {
+			t := f.Val
+			if dstr(t, "g") == "ptr" && !dbool(t, "nil") {
+				t, _ = asD(t["v"])
+			}
+			if f.Emb && dstr(t, "g") == "marshaler" && !sameKeys(exp.M, gm) {
+				return descKind(d) + ":promoted-marshaler"
+			}
+		}
 		if !sameKeys(exp.M, gm) {
 			// which field's key is wrong?
 			for _, f := range fs {
